@@ -206,6 +206,30 @@ impl Prop for C02 {
                 r.end = Some(eff + 1);
             }
         }
+        // a pruned / archived data directory: one block per file, and every file below the range is gone
+        // (blocks outside the range never contribute — their absence must not matter)
+        if !long && n >= 3 && rng.chance(1, 5) {
+            let s0 = rng.range(base + 2, t.max(base + 2)).min(t);
+            r.start = Some(s0);
+            if r.end.map(|e| e <= s0).unwrap_or(false) {
+                r.end = Some(s0 + 1);
+            }
+            scn.extras.clear();
+            scn.layouts = vec![Layout {
+                files: (0..n)
+                    .map(|i| BlkFileDesc {
+                        number: i as u64,
+                        width: 5,
+                        segs: vec![Seg::Active { i }],
+                        symlink: false,
+                    })
+                    .collect(),
+                xor_key: None,
+                extra_files: vec![],
+            }];
+            r.disk_faults = (base..s0).map(|hh| DiskFault::RemoveFile { height: hh }).collect();
+            h.stats.probe("pruned_below_range");
+        }
         // marker chains are consistent: --verify may be combined with any range that starts above 0
         if r.start.map(|s| s >= base + 1).unwrap_or(false) && rng.chance(1, 3) {
             r.verify = true;
